@@ -47,6 +47,7 @@ type CaseIn struct {
 	World    []*Entry `json:"world"`
 	A        string   `json:"a"`
 	B        string   `json:"b"`
+	Spelling string   `json:"spelling,omitempty"` // stream from-spelling: `from` relative to a scratch directory, spelled as given
 }
 
 func file(perm uint32, c string) *Node { return &Node{K: "file", Perm: perm, C: []byte(c)} }
@@ -605,6 +606,65 @@ func (r *runner) run(in *CaseIn, stream string) {
 	c.Hist("result", map[bool]string{true: "ok", false: "error"}[err == nil])
 }
 
+// spellings of `from`, relative to a scratch directory that holds d/s/file and d/s/sub/g (d/s a directory)
+var spellings = []string{"d/s", "d//s", "d/./s", "d/s/", "./d/s", "d/x/../s", "d/s/.", "d//s/file", "d/./s/file", "d/s/file"}
+
+// spelling runs RecursiveCopy / RecursiveLink with `from` = <scratch>/<spelling> exactly as spelled.  The panic of
+// `name[len(from):]` is recovered and reported: a panic neither reproduces the tree nor is it an error return.
+func (r *runner) spelling(in *CaseIn) {
+	c := r.c
+	r.n++
+	root := filepath.Join(r.base, fmt.Sprintf("s%d", r.n))
+	must(os.MkdirAll(filepath.Join(root, "d", "s", "sub"), 0o755))
+	must(os.MkdirAll(filepath.Join(root, "d", "x"), 0o755))
+	defer os.RemoveAll(root)
+	must(os.WriteFile(filepath.Join(root, "d", "s", "file"), []byte("x"), 0o644))
+	must(os.WriteFile(filepath.Join(root, "d", "s", "sub", "g"), []byte("g"), 0o644))
+	from := root + "/" + in.Spelling // NOT filepath.Join: the spelling must survive
+	to := filepath.Join(root, "dst")
+	st, err := os.Stat(from)
+	must(err)
+	isDir := st.IsDir()
+	panicked, perr := false, ""
+	var callErr error
+	func() {
+		defer func() {
+			if p := recover(); p != nil {
+				panicked, perr = true, fmt.Sprint(p)
+			}
+		}()
+		if in.Via == "RecursiveLink" {
+			callErr = fs.RecursiveLink(from, to)
+		} else {
+			callErr = fs.RecursiveCopy(from, to, 0o644)
+		}
+	}()
+	cleaned := filepath.Clean(from)
+	// only the part below the scratch directory goes to the model (the prefix is clean and common to both)
+	relFrom, relCleaned := strings.TrimPrefix(from, root+"/"), strings.TrimPrefix(cleaned, root+"/")
+	js := map[string]any{"in": in, "cleaned": relCleaned, "is_dir": isDir, "panicked": panicked, "panic": perr, "error": fmt.Sprint(callErr)}
+	c.Case(lib.App("CaseSpelling", lib.Str(relFrom), lib.Str(relCleaned), lib.Bool(isDir), lib.Bool(panicked)), js,
+		"spelling|"+in.Via+"|"+in.Spelling, in.Spelling != relCleaned)
+	c.Oracle()
+	switch {
+	case panicked:
+		c.Fail("unclean-from-directory-panics", fmt.Sprintf("%s(from = \"<dir>/%s\", ...) panicked: %s (`name[len(from):]`, src/fs/copy.go:62: godirwalk reports the cleaned root %q)", in.Via, in.Spelling, perr, relCleaned), in)
+	case callErr != nil:
+		c.Fail("unclean-from-error", fmt.Sprintf("%s(from = \"<dir>/%s\", ...) failed: %v", in.Via, in.Spelling, callErr), in)
+	default:
+		want := "x"
+		got, err := os.ReadFile(filepath.Join(to, "file"))
+		if !isDir {
+			got, err = os.ReadFile(to)
+		}
+		if err != nil || string(got) != want {
+			c.Fail("unclean-from-wrong-copy", fmt.Sprintf("%s(from = \"<dir>/%s\", ...) returned nil but the destination does not hold the file: %v %q", in.Via, in.Spelling, err, got), in)
+		}
+	}
+	c.Hist("stream", "from-spelling")
+	c.Hist("from_spelling", map[bool]string{true: "clean", false: "unclean"}[in.Spelling == relCleaned]+map[bool]string{true: " directory", false: " file"}[isDir])
+}
+
 func describe(n *Node) string {
 	if n == nil {
 		return "nothing"
@@ -874,6 +934,10 @@ func main() {
 			if in.XDev && r.xbase == "" {
 				in.XDev = false
 			}
+			if in.Spelling != "" {
+				r.spelling(in)
+				return
+			}
 			r.run(in, "replay")
 			return
 		}
@@ -883,7 +947,7 @@ func main() {
 			"run through RecursiveCopy(0555), RecursiveLink, link-without-fallback and RecursiveLink across devices; every kind of top-level symlink "+
 			"(to a file, a directory, a symlink, itself, nothing) x 5 configurations; random larger trees (odd names, binary contents, many modes, absolute and "+
 			"escaping symlink targets, hard links inside the source) x random configurations; destinations that already exist (stale files, directories in the way, "+
-			"an earlier hard-linked copy); the call repeated over an earlier copy / hard-linked copy of the same tree x RecursiveLink, RecursiveCopy, link-without-fallback. distinct = distinct (world, configuration); non-trivial = source with >= 2 nodes or a symlink root", maxNodes))
+			"an earlier hard-linked copy); the call repeated over an earlier copy / hard-linked copy of the same tree x RecursiveLink, RecursiveCopy, link-without-fallback; `from` spelled in 10 ways (clean, //, /./, trailing /, ./, x/.., /. ; directory and file) x RecursiveCopy, RecursiveLink. distinct = distinct (world, configuration); non-trivial = source with >= 2 nodes or a symlink root", maxNodes))
 
 		std := []config{
 			{"RecursiveCopy", 0o555, false, false, false},
@@ -936,20 +1000,12 @@ func main() {
 			r.cases(t, nil, []config{k}, "random")
 		}
 
-		// --- observation outside the property's quantifier (path spelling, not tree shape): recorded, not judged
-		func() {
-			d := filepath.Join(base, "probe")
-			must(os.MkdirAll(filepath.Join(d, "src", "sub"), 0o755))
-			must(os.WriteFile(filepath.Join(d, "src", "sub", "file"), []byte("x"), 0o644))
-			defer os.RemoveAll(d)
-			defer func() {
-				if p := recover(); p != nil {
-					c.Note("observation (not part of C34): RecursiveCopy(from = \"<dir>/\", ...) with a trailing slash panics: %v (name[len(from):] assumes a clean path; all callers pass filepath.Join results)", p)
-				}
-			}()
-			err := fs.RecursiveCopy(filepath.Join(d, "src")+"/", filepath.Join(d, "dst"), 0o644)
-			c.Note("observation (not part of C34): RecursiveCopy with a trailing slash on `from` returned %v", err)
-		}()
+		// --- 6. how `from` is spelled (finding unclean-from-directory-panics)
+		for _, sp := range spellings {
+			for _, via := range []string{"RecursiveCopy", "RecursiveLink"} {
+				r.spelling(&CaseIn{Spelling: sp, Via: via})
+			}
+		}
 
 		// --- observation: a destination that holds a symlink to a directory OF THE SOURCE (outside the model: Unsupported)
 		func() {
